@@ -143,8 +143,8 @@ let rtsp flag evtok =
        | Res.Panic s -> Stdlib.List.rev (panic_tok s :: acc)
        | Res.Err e -> Stdlib.List.rev (err_tok e :: acc)
        | Res.Ok (st', ev) ->
-         let sdp = Stdlib.List.exists (function MediaRtspRemux.RevSdp -> true | _ -> false) ev in
-         let n = Stdlib.List.fold_left (fun a e -> match e with MediaRtspRemux.RevRtp k -> a + int_of_n k | _ -> a) 0 ev in
+         let sdp = Stdlib.List.exists (function MediaRtspRemux.RevSdp (_, _) -> true | _ -> false) ev in
+         let n = Stdlib.List.fold_left (fun a e -> match e with MediaRtspRemux.RevRtp l -> a + Stdlib.List.length l | _ -> a) 0 ev in
          go st' rest (((if sdp then "S/" else "") ^ hex_int n) :: acc))
   in
   match go MediaRtspRemux.rtsp_init (events evtok) [] with
@@ -165,13 +165,15 @@ let bcast fx cfgtok evtok =
   (* the GOP caches exist whatever the enable flags; Feed is only called when the protocol is enabled *)
   let cfg = { MediaBroadcast.gc_rtmp = on "re"; gc_rtmp_gop = get "rg" > 0; gc_flv = on "fe"; gc_flv_gop = get "fg" > 0;
               gc_ts = on "te" || on "he" || on "rm"; gc_rtsp = on "se";
-              gc_dummy = (if on "da" then Some (n_of_int (get "dw")) else None); gc_add = false } in
+              gc_dummy = (if on "da" then Some (n_of_int (get "dw")) else None); gc_add = false;
+              gc_rtsp_wait = on "wk" } in
   let evs = Stdlib.List.map (fun f ->
       match Stdlib.List.hd f with
       | "P" -> MediaBroadcast.GPub (msg_of_fields f)
       | "Jr" -> MediaBroadcast.GJoinRtmp
       | "Jf" | "Jw" -> MediaBroadcast.GJoinFlv
-      | "Jt" | "Js" -> MediaBroadcast.GJoinOther
+      | "Js" -> MediaBroadcast.GJoinRtsp
+      | "Jt" -> MediaBroadcast.GJoinOther
       | _ -> failwith "bad event") (events evtok) in
   let (oks, p) = MediaCodecGlue.m_grun fx cfg evs in
   let oks = int_of_n oks in
@@ -183,8 +185,10 @@ let bcast fx cfgtok evtok =
   let base = if toks = [] then "-" else String.concat "," toks in
   match p, MediaCodecGlue.m_gfinal fx cfg evs with
   | None, Some g ->
-    Printf.sprintf "%s s=%s/%s/%s/%s" base (bool_tok g.MediaBroadcast.g_acodec) (bool_tok g.MediaBroadcast.g_vcodec)
-      (hex_n g.MediaBroadcast.g_w) (hex_n g.MediaBroadcast.g_h)
+    let rs = Stdlib.List.map (fun (r : MediaBroadcast.rsub) ->
+        bool_tok r.MediaBroadcast.rb_play ^ bool_tok r.MediaBroadcast.rb_wait) g.MediaBroadcast.g_rsubs in
+    Printf.sprintf "%s s=%s/%s/%s/%s r=%s" base (bool_tok g.MediaBroadcast.g_acodec) (bool_tok g.MediaBroadcast.g_vcodec)
+      (hex_n g.MediaBroadcast.g_w) (hex_n g.MediaBroadcast.g_h) (if rs = [] then "-" else String.concat "." rs)
   | _ -> base
 
 let register () =
